@@ -64,6 +64,15 @@ class C15(Prop):
         # the persistent counter: the only thing that changes between runs is the variable itself
         out.append(case("if (n) { n++; } else { n = 1; } return [n, 1];", [enc_value([1, 1]), enc_value([2, 1]), enc_value([3, 1])], "counter", runs=3))
         out.append(case("x = 70000; x++; return [x, 70000];", [enc_value([70001, 70000])] * 3, "pool-constant", runs=3))
+        # literals held in the constant pool (above the inline limit, floats) as the RIGHT operand of arithmetic and compound
+        # assignment: the literal, and variables assigned from it, must be unchanged afterwards - in this run and the next
+        for L in [65535, 65536, 70000, 100000, 2.5]:
+            for op, f in (("+", lambda a, b: a + b), ("-", lambda a, b: a - b), ("*", lambda a, b: a * b)):
+                out.append(case("a = %s; b = 1; b %s= %s; return [a, b, %s];" % (lit(L), op, lit(L), lit(L)), [enc_value([L, f(1, L), L])] * 2, "pool-right-operand", runs=2))
+                out.append(case("a = %s; y = 3 %s %s; return [a, y, %s];" % (lit(L), op, lit(L), lit(L)), [enc_value([L, f(3, L), L])] * 2, "pool-right-operand", runs=2))
+                out.append(case("t = 0; foreach i in 1..3 { t = t %s %s; } return [t, %s];" % (op, lit(L), lit(L)),
+                                [enc_value([f(f(f(0, L), L), L), L])] * 2, "pool-right-operand", runs=2))
+                out.append(case("function g(n) { return n %s %s; } return [g(1), g(1), %s];" % (op, lit(L), lit(L)), [enc_value([f(1, L), f(1, L), L])] * 2, "pool-right-operand", runs=2))
         # the field of the host object as the thing mutated: copies made before must not change, nor the object's field in later runs
         for v in [3, 70000, 9.5]:
             for m in ("++", "--", " += 2", " *= 3"):
